@@ -3874,15 +3874,7 @@ fn zip_mode(out: &mut Out, rng: &mut Rng, thorough: bool) {
 				})
 			}, Some(false)),
 		];
-		let mut rest: Vec<(String, Vec<u8>, Option<bool>)> = rest.into_iter().filter_map(|(n, b, m)| b.map(|b| (n.to_string(), b, m))).collect();
-		if !thorough {
-			// quick tier: two of the further variants, chosen by the seed
-			for i in (1..rest.len()).rev() {
-				let j = rng.below(i as u64 + 1) as usize;
-				rest.swap(i, j);
-			}
-			rest.truncate(2);
-		}
+		let rest: Vec<(String, Vec<u8>, Option<bool>)> = rest.into_iter().filter_map(|(n, b, m)| b.map(|b| (n.to_string(), b, m))).collect();
 		variants.extend(rest);
 
 		for (vi, (vname, vbytes, must)) in variants.iter().enumerate() {
@@ -3972,6 +3964,9 @@ fn zip_mode(out: &mut Out, rng: &mut Rng, thorough: bool) {
 			let before = node_obs(&twin, &kit);
 			let r = zip_write_once(&twin, &work, &format!("zip_twin_{}", name), archive.hash(), &bytes);
 			out.line("seg zip write 0 1 1", &r);
+			// ... and the "not needed" exit comes before the header lookup
+			let r = zip_write_once(&twin, &work, &format!("zip_twin_{}", name), Hash::from_vec(&rng.bytes(32)), &bytes);
+			out.line("seg zip write 0 0 1", &r);
 			if node_obs(&twin, &kit) != before {
 				out.raw(&format!("#ORACLE-FAIL C16 zip {}: an archive that was not needed changed the node's state", name));
 			}
